@@ -42,7 +42,7 @@ def run(ctx):
     syn += [(1, 5, 2), (2, 7, 3), (1, 80, 7)]
     # several rounds with very few partial products (0, 1, 2 per round)
     syn += [(2, 2, 2), (3, 4, 2), (3, 6, 2), (3, 3, 4)]
-    for _ in range(20 if thorough else 5):
+    for _ in range(60 if thorough else 5):
         syn.append((rnd.randint(1, 3), rnd.randint(2, 80), rnd.randint(1, 8)))
     for nc, rw, qd in syn:
         shapes.append({"nc": nc, "rw": rw, "qd": qd, "ng": 0, "db": rnd.randint(2, 12)})
@@ -55,12 +55,12 @@ def run(ctx):
     jobs = []
     for i, s in enumerate(shapes):
         if "_inst" in s:
-            jobs.append({"terms": terms, "part": "real", "instance": s["_inst"], "index": i, "nrandom": 6 if thorough else 2, "nperturb": 6 if thorough else 3, "shard": i})
+            jobs.append({"terms": terms, "part": "real", "instance": s["_inst"], "index": i, "nrandom": 16 if thorough else 2, "nperturb": 10 if thorough else 3, "shard": i})
         else:
-            jobs.append({"terms": terms, "part": "synthetic", "index": i, "nrandom": 4 if thorough else 2, "nperturb": 4 if thorough else 2, "shard": i})
+            jobs.append({"terms": terms, "part": "synthetic", "index": i, "nrandom": 12 if thorough else 2, "nperturb": 8 if thorough else 2, "shard": i})
             # zeta on the subgroup H (Z_H(zeta) = 0): zeta = 1 with Z(1) != 1 must not be accepted; zeta = w^j with a vanishing combination
             # is accepted and rejected after one change in the permutation argument
-            jobs.append({"terms": terms, "part": "degenerate", "index": i, "nrandom": 3 if thorough else 1, "nperturb": 3 if thorough else 2, "shard": 100 + i})
+            jobs.append({"terms": terms, "part": "degenerate", "index": i, "nrandom": 8 if thorough else 1, "nperturb": 6 if thorough else 2, "shard": 100 + i})
 
     def one(j):
         return ctx.run_driver("c16", j, tag="c16-%d" % j["shard"], timeout=3000, env=env)
